@@ -56,6 +56,11 @@ def insertIfMissing (h : Headers) (n v : Bytes) : Headers := if contains h n the
 /-- http's HeaderMap panics (`append`/`insert`) or errors (`try_append`) beyond 32768 distinct names. -/
 def maxSize : Nat := 32768
 def distinctNames (h : Headers) : Nat := (h.map (·.1)).eraseDups.length
+/-- `try_append` of a new name fails with MaxSizeReached (cheap test first: distinct ≤ length). -/
+def full (h : Headers) (n : Bytes) : Bool :=
+  if h.length < maxSize then false
+  else if h.contains n then false
+  else decide (distinctNames h ≥ maxSize)
 end Headers
 
 def str (s : String) : Bytes := s.toUTF8.toList
